@@ -109,6 +109,46 @@ def run(chk, build, replay=None):
             except (Exception, RecursionError):
                 continue
     chk.coverage["outputs_inside_the_core_of_the_one_expression_theorem"] = {"outputs": n_out, "inside": n_core}
+    # how many explored PROGRAMS satisfy the hypothesis of the whole-program theorem (C02_module_output_is_one_expression):
+    # stmt_ok is evaluated by the model itself; for those inside, the theorem's conclusion is also checked on the real output
+    # (the real converter's tree must be in the core: a program inside the hypothesis whose real output falls outside the core
+    # contradicts the theorem or the model/code tie)
+    from harness import sexp as _sexp
+    lines, inside_srcs = [], []
+    for s in srcs[:600 if chk.tier == "quick" else 4000]:
+        if len(s) > 20000:
+            continue
+        try:
+            lines.append((s, f"(stmt-ok {_sexp.block(_ast.parse(s).body)})"))
+        except (Exception, RecursionError):
+            continue
+    answers = common.model_eval([l for _, l in lines])
+    n_in = n_out_h = n_bad = 0
+    contradictions = []
+    for (s, _), a in zip(lines, answers):
+        if a == "(ok 1)":
+            n_in += 1
+            inside_srcs.append(s)
+        elif a == "(ok 0)":
+            n_out_h += 1
+        else:
+            n_bad += 1
+    for s in inside_srcs:
+        for chain, short in ((False, False), (True, True)):
+            try:
+                out = conv(_ast.parse(s), _symtable.symtable(s, "<s>", "exec"), lowercorr.make_configs(chain, short))
+            except (Exception, RecursionError):
+                continue
+            chk.note_case(("stmt-ok-output", s, chain, short))
+            if not coretok.core_top_py(out):
+                contradictions.append((s, chain, short))
+    chk.coverage["programs_inside_the_hypothesis_of_the_whole_program_theorem"] = {
+        "programs": len(lines), "inside": n_in, "outside": n_out_h, "undecoded": n_bad,
+        "inside_whose_real_output_is_outside_the_core": len(contradictions)}
+    for s, chain, short in contradictions[:5]:
+        chk.add_broken("correspondence", "a program inside the hypothesis of C02_module_output_is_one_expression is converted by "
+                       "the real converter to a tree outside the core (the theorem, through the model, says it is inside)",
+                       __import__("json").dumps({"source": s[:3000], "chain_call": chain, "short_circuit": short}))
     counts["known-finding-instances"] = known
     chk.coverage.setdefault("direct_oracle", {}).update(counts)
     propkit.replay_known(chk, "C02")
